@@ -246,6 +246,20 @@ class Repo:
                 elif isinstance(core, ast.Name) and core.id in out:
                     v = out[core.id]  # an alias of an earlier constant
                 out[name] = v
+        # the names a member of an enum of this module goes by: its module-level alias (`WHITE = Color.WHITE`) or, when the
+        # module keeps no alias, the member's own name (then a constant of that name is the member's value)
+        self.enum_alias: Dict[Tuple[str, str], str] = {}
+        for (name, value) in bindings:
+            core = value
+            if isinstance(core, ast.Attribute) and isinstance(core.value, ast.Name) and core.value.id in enums and core.attr in enums[core.value.id]:
+                self.enum_alias.setdefault((core.value.id, core.attr), name)
+        for cls, members in enums.items():
+            for m, val in members.items():
+                if (cls, m) not in self.enum_alias and not isinstance(val, tuple) and m.isupper():
+                    if m not in out:
+                        out[m] = val
+                    if out.get(m) == val:
+                        self.enum_alias[(cls, m)] = m
         return out
 
     # -- lookup ------------------------------------------------------------
